@@ -407,7 +407,8 @@ func TestVerifC02(t *testing.T) {
 				if !ok {
 					continue
 				}
-				qsp = qspec{q: rq, desc: "regexp(" + p + ")", re: rq.Regexp.String(), reAlt: strings.Contains(p, "|")}
+				// query.Parse applies "smart case": a pattern with an upper-case letter is case sensitive
+				qsp = qspec{q: rq, desc: "regexp(" + p + ")", re: rq.Regexp.String(), reAlt: strings.Contains(p, "|"), cs: rq.CaseSensitive}
 			}
 			ctx := r.Intn(3)
 			for _, chunkMode := range []bool{false, true} {
@@ -476,11 +477,21 @@ func TestVerifC02(t *testing.T) {
 								fail("or-not-longest", "or of substrings: a longer atom occurrence starts at the start of a reported range")
 							}
 						}
-						for _, p := range qsp.ors { // completeness: every occurrence starts inside a reported range
+						// completeness: every CANDIDATE of an atom starts inside a reported range.  An atom of >= 3 runes yields all its
+						// occurrences (trigram index); a shorter one is evaluated as a regexp, whose matches are the successive
+						// leftmost non-overlapping occurrences of that atom alone.
+						for _, p := range qsp.ors {
+							short := utf8.RuneCountInString(p) < 3
 							for k := 0; k+len(p) <= len(c); k++ {
-								if matchAt(p, k) && !covered[k] {
-									fail("or-dropped", fmt.Sprintf("or of substrings: the occurrence of %q at %d starts in no reported range", p, k))
+								if !matchAt(p, k) {
+									continue
+								}
+								if !covered[k] {
+									fail("or-dropped", fmt.Sprintf("or of substrings: the candidate %q at %d starts in no reported range", p, k))
 									break
+								}
+								if short {
+									k += len(p) - 1
 								}
 							}
 						}
@@ -505,6 +516,9 @@ func TestVerifC02(t *testing.T) {
 						}
 					} else {
 						prefix := "(?i)"
+						if qsp.cs {
+							prefix = ""
+						}
 						re, err := regexp.Compile(prefix + "(?m:" + qsp.re + ")")
 						if err != nil {
 							t.Fatal(err)
